@@ -1,6 +1,6 @@
 SPECIFICATION Spec
 CONSTANTS
-  Addr = {0, 1, 2}
+  Addr = {0, 1}
   Byte = {0, 1}
   Ids = {i1, i2, i3}
   MaxLen = 2
